@@ -182,6 +182,71 @@ fn main() {
                 };
                 scen::graph_scenario(i, &mut srng, &o, family)
             }
+            "marks" | "marksinv" | "isomarks" | "textenc" | "grapheme" | "cursor" | "cursortext" => {
+                use serde_json::json;
+                amverif::proj::set_rich(true);
+                let mut prof = Profile::all();
+                prof.nested = false;
+                prof.max_objs = 3;
+                prof.nkeys = 1;
+                let text = family != "cursor";
+                let enc = match family {
+                    "textenc" => [automerge::TextEncoding::Utf16CodeUnit, automerge::TextEncoding::Utf8CodeUnit,
+                                  automerge::TextEncoding::GraphemeCluster, automerge::TextEncoding::UnicodeCodePoint][i % 4],
+                    "grapheme" => automerge::TextEncoding::GraphemeCluster,
+                    "cursortext" => [automerge::TextEncoding::Utf16CodeUnit, automerge::TextEncoding::UnicodeCodePoint][i % 2],
+                    _ => automerge::TextEncoding::UnicodeCodePoint,
+                };
+                let iv = |k: &str, s: &str, n: i64| json!({"k":k,"s":s,"n":n,"toks":[]});
+                let base = if text {
+                    prof.lists = false;
+                    prof.maps = false;
+                    prof.marks = family != "cursortext";
+                    prof.unicode = !family.contains("marks");
+                    if family == "marksinv" {
+                        prof.invalid_pct = 25;
+                    }
+                    prof.combining = family == "grapheme";
+                    prof.max_len = if family.contains("marks") { 8 } else { 10 };
+                    let toks: Vec<&str> = match family {
+                        "marks" | "marksinv" | "isomarks" => vec!["a", "b", "c", "d"],
+                        "grapheme" => vec!["a", "e", "cacute", "woman"],
+                        _ => vec!["a", "grin", "eacute", "b"],
+                    };
+                    vec![
+                        json!({"fn":"put_object","obj":[0,0],"key":"t","ty":"text"}),
+                        json!({"fn":"splice_text","obj":[1,1],"idx":0,"del":0,"toks":toks}),
+                    ]
+                } else {
+                    prof.texts = false;
+                    prof.maps = false;
+                    prof.max_len = 6;
+                    vec![
+                        json!({"fn":"put_object","obj":[0,0],"key":"l","ty":"list"}),
+                        json!({"fn":"insert","obj":[1,1],"idx":0,"val":iv("counter","",1)}),
+                        json!({"fn":"insert","obj":[1,1],"idx":1,"val":iv("int","7",0)}),
+                        json!({"fn":"insert","obj":[1,1],"idx":2,"val":iv("bool","true",0)}),
+                    ]
+                };
+                let o = scen::GraphOpts {
+                    weights: if family == "isomarks" { scen::W_ISO } else { scen::W_CONFLICT },
+                    twin_start: false,
+                    base_calls: base,
+                    readat: 4,
+                    reload_before_readat: false,
+                    rollback_pct: 0,
+                    diffs: 0,
+                    log_patches: false,
+                    steps: 10 + srng.below(10),
+                    max_reps: 3,
+                    max_changes: 12,
+                    dup_actors: false,
+                    obs: ObsLevel::View,
+                    prof,
+                    enc,
+                };
+                scen::graph_scenario(i, &mut srng, &o, family)
+            }
             "graph" | "dup" => {
                 let dup = family == "dup";
                 let o = scen::GraphOpts {
